@@ -44,7 +44,7 @@ ASSUMPTIONS = [
 KINDS = ("supervised", "semi", "knn", "unsup", "unsup_prop")
 
 
-EXPECTED_PROBES = ['batch_longer_than_training_set', 'duplicates_inside_one_batch', 'model_', 'position_ge1_is_valid_training_index', 'query_equals_training_sample', 'query_raises_consistently', 'successful_predict_after_abort']
+EXPECTED_PROBES = ['non_float64_features', 'index_arrays_passed_without_precomputed_distances', 'batch_longer_than_training_set', 'duplicates_inside_one_batch', 'model_', 'position_ge1_is_valid_training_index', 'query_equals_training_sample', 'query_raises_consistently', 'successful_predict_after_abort']
 
 
 def arms(tier):
@@ -71,6 +71,15 @@ def gen_case(rng, arm, tier, k=0):
     X = gen_matrix(rng, n, d, style)
     Y = gen_labels(rng, n, K)
     case = {"kind": kind, "metric": metric, "style": style, "pre": arm == "pre", "X": X, "Y": Y}
+    if arm != "pre" and rng.random() < 0.10:
+        # features that are not float64
+        case["dtype"] = rng.choice(B.DTYPES)
+        case["metric"] = metric = rng.choice(B.DTYPE_METRICS)
+        case["X"] = X = [[float(int(abs(v)) % 4) for v in r] for r in X]
+    if arm != "pre" and rng.random() < 0.15:
+        # the caller passes index arrays although distances are computed on the fly: they only
+        # name the samples and must not influence any label (small values collide with training idx)
+        case["query_idx"] = [rng.randrange(0, n + 2) for _ in range(20)]
     if kind == "semi":
         case["XU"] = gen_matrix(rng, rng.randint(0, 5), d, style)
     if kind == "knn":
@@ -104,6 +113,10 @@ def gen_case(rng, arm, tier, k=0):
                 pool.append(["row", [X[a][j] * 10 + 1 for j in range(d)]])
             else:
                 pool.append(["row", gen_matrix(rng, 1, d, style if style != "dups" else "lattice")[0]])
+    if case.get("dtype"):
+        pool = [p if p[0] != "row" else ["row", [float(int(abs(v)) % 4) for v in p[1]]] for p in pool]
+        if "XU" in case:
+            case["XU"] = [[float(int(abs(v)) % 4) for v in r] for r in case["XU"]]
     case["pool"] = pool
     ops = []
     for _ in range(rng.randint(4, 30)):
@@ -212,6 +225,9 @@ def do_predict(m, case, rows, batch):
     Xq = tarr(case, [rows[q] for q in batch])
     if case["pre"]:
         return m.predict(Xq, iarr([pool_index(case, q) for q in batch]))
+    if case.get("query_idx"):
+        qi = case["query_idx"]
+        return m.predict(Xq, iarr([qi[q % len(qi)] for q in batch]))
     return m.predict(Xq)
 
 
@@ -362,6 +378,10 @@ def run_case(case):
         out.nontrivial = any(len(p) >= 2 for p in positions.values())
         out.states = states
         bump(out.probes, "model_" + kind)
+        if case.get("dtype"):
+            bump(out.probes, "non_float64_features")
+        if case.get("query_idx"):
+            bump(out.probes, "index_arrays_passed_without_precomputed_distances")
     except Stop as s:
         out.violation = s.violation
     except OutOfDomain:
